@@ -76,6 +76,9 @@ Definition generic (ctx : string) : option verdict :=
    `for composite in self.name_to_composites[..]` -- are NOT listed, so they
    fail the obligation if they come back. *)
 Definition audit : list (site * verdict) := [
+  (* KnownValue equality key (fix f24fbae): a frozenset built from a frozenset, kept inside the
+     (type, value) tuple and consumed only by ==, which is order-insensitive for frozensets *)
+  (Site "value.py" "_literal_key" "stored:Tuple" "frozenset((_literal_key(elt) for elt in val))" 0, VStored);
   (* returned / kept inside a tuple; consumers are sites of their own *)
   (Site "value.py" "MultiValuedValue._get_known_subvals" "stored:Tuple" "known_values" 0, VStored);
   (* becomes VarnameWithOrigin.origin *)
